@@ -1,0 +1,8 @@
+//go:build verif
+
+package animation
+
+import "image/color"
+
+// VerifAlphaBlend exposes alphaBlendNRGBA to the verification harness (/verif, property C09).
+func VerifAlphaBlend(src, dst color.NRGBA) color.NRGBA { return alphaBlendNRGBA(src, dst) }
